@@ -40,7 +40,8 @@ func (x *Exec) localsOf(fr *Frame, st *State, pos token.Pos) func(string) (TV, b
 		if v, ok := st.cells[best]; ok {
 			return TV{v, et}, true
 		}
-		return TV{}, false
+		// declared later on this path: an arbitrary value
+		return TV{x.fresh(et, "undecl."+name), et}, true
 	}
 }
 
